@@ -294,16 +294,22 @@ def sre_any():
 # ----------------------------------------------------------------------------- A: write-back
 
 KEYS = ['', 'a b', 'k', 'a\\b', '\n', '\xe9', 'x.y', '[0]', 0, 7, 'None', '0']
-LEAVES = [0, -3, 1.5, 'txt', '', "it's", 'a=b', True, None, [1, 2], {'k': 1}, (1, 2), b'by', 2**70, 'true']
+LEAVES = [0, -3, 1.5, 'txt', '', "it's", 'a=b', True, None, [1, 2], {'k': 1}, (1, 2), b'by', 2**70, 'true', [], {}]
+NWL = len(LEAVES)
+
+
+def _lf(i):
+  """Leaf i; the empty containers (printed as leaves) are a fresh object at every site, the others are shared."""
+  return copy.copy(LEAVES[i]) if i >= 15 else LEAVES[i]
 
 
 def _wb_member(k1, k2, l1, l2, w, pos):
-  n0 = fdl.Config(fam.fkw, x=LEAVES[l1], y=[LEAVES[l2], fdl.Config(fam.g0, x=LEAVES[l1])], extra=LEAVES[l2])
-  d = {KEYS[k1]: n0, KEYS[k2]: fdl.Config(fam.g1, x=LEAVES[l2], y={KEYS[k1]: [fdl.Config(fam.g2, x=LEAVES[l1])]})}
+  n0 = fdl.Config(fam.fkw, x=_lf(l1), y=[_lf(l2), fdl.Config(fam.g0, x=_lf(l1))], extra=_lf(l2))
+  d = {KEYS[k1]: n0, KEYS[k2]: fdl.Config(fam.g1, x=_lf(l2), y={KEYS[k1]: [fdl.Config(fam.g2, x=_lf(l1))]})}
   if pos:
-    root = fdl.Config(fam.fp, fam.wrap(w, n0), LEAVES[l1], 3, LEAVES[l2], fdl.Config(fam.g3, x=d), k=d)
+    root = fdl.Config(fam.fp, fam.wrap(w, n0), _lf(l1), 3, _lf(l2), fdl.Config(fam.g3, x=d), k=d)
   else:
-    root = fdl.Config(fam.g4, x=d, y=fam.wrap(w, n0), z=LEAVES[l2])
+    root = fdl.Config(fam.g4, x=d, y=fam.wrap(w, n0), z=_lf(l2))
   return root
 
 
@@ -365,10 +371,10 @@ def c18_writeback(k1: int, k2: int, l1: int, l2: int, w: int, pos: bool) -> bool
   """
   Every (path, value) of as_dict_flattened / as_str_flattened appears once, resolves to that leaf, and
   set_value(copy, path=repr(new)) changes exactly that leaf.
-  require: 0 <= k1 < 12 and 0 <= k2 < 12 and 0 <= l1 < 15 and 0 <= l2 < 15 and 0 <= w <= 5
+  require: 0 <= k1 < 12 and 0 <= k2 < 12 and 0 <= l1 < 17 and 0 <= l2 < 17 and 0 <= w <= 5
   """
   import crosshair
-  k1, k2, l1, l2, w = _conc(k1, 0, 11), _conc(k2, 0, 11), _conc(l1, 0, 14), _conc(l2, 0, 14), _conc(w, 0, 5)
+  k1, k2, l1, l2, w = _conc(k1, 0, 11), _conc(k2, 0, 11), _conc(l1, 0, NWL - 1), _conc(l2, 0, NWL - 1), _conc(w, 0, 5)
   pos = bool(pos)
   with crosshair.NoTracing():
     if KEYS[k1] == KEYS[k2]:
@@ -411,6 +417,30 @@ def c18_writeback(k1: int, k2: int, l1: int, l2: int, w: int, pos: bool) -> bool
         _assign(o, toks[-1], new)
         if canon(c) != canon(e):
           return False
+    # writing every printed leaf back, one override after the other into the same copy, equals assigning a fresh copy of
+    # each value at its site - in particular it introduces no aliasing between leaves whose printed values are
+    # textually identical (and changes nothing at all where the leaves are immutable)
+    c = copy.deepcopy(root)
+    e = copy.deepcopy(root)
+    for path, value in flat.items():
+      toks = _tokens(path)
+      obj = root
+      parents = []
+      for t in toks:
+        parents.append(obj)
+        obj = _follow(obj, t)
+      if any(isinstance(p, tuple) for p in parents):
+        continue
+      try:
+        flag_utils.set_value(c, f'{path}={value!r}')
+      except Exception:  # pylint: disable=broad-except
+        return False
+      o = e
+      for t in toks[:-1]:
+        o = _follow(o, t)
+      _assign(o, toks[-1], copy.deepcopy(value))
+    if canon(c) != canon(e):
+      return False
     return canon(root) == before
 
 
@@ -567,11 +597,11 @@ def c18_call_expr(name: int, a0: int, a1: int, k0: int, nargs: int, nkw: int) ->
 
 def obligations(tier, seed):
   # thorough: every (k1, wrapper, root kind) cube with k2 and l1 symbolic, l2 tied to l1 in three different ways
-  wcubes = [Cube(f'k{k1}_w{w}_p{int(pos)}_o{o}', [f'l2 == (l1 + {k1} + {o}) % 15'], dict(k1=k1, w=w, pos=pos), est=180)
+  wcubes = [Cube(f'k{k1}_w{w}_p{int(pos)}_o{o}', [f'l2 == (l1 + {k1} + {o}) % 17'], dict(k1=k1, w=w, pos=pos), est=180)
             for k1 in range(12) for w in range(6) for pos in (False, True) for o in (0, 5, 10) if (k1 + w + o) % 2 == 0]
   if tier == 'quick':
     # k2 and l1 symbolic; l2 tied to l1, wrapper and root kind by cube
-    wcubes = [Cube(f'k{k1}', [f'l2 == (l1 + {k1}) % 15'], dict(k1=k1, w=k1 % 6, pos=bool(k1 % 2)), est=180) for k1 in range(12)]
+    wcubes = [Cube(f'k{k1}', [f'l2 == (l1 + {k1}) % 17'], dict(k1=k1, w=k1 % 6, pos=bool(k1 % 2)), est=180) for k1 in range(12)]
   # thorough: all sequences of length <= 3 under every grouping / read schedule; length 4 under 20 schedules
   dcubes = []
   for n in range(1, 5):
@@ -606,7 +636,7 @@ def obligations(tier, seed):
                              'continuation length <= 12 in the unique-split queries'),
       Obligation('c18_writeback', c18_writeback, wcubes, timeout=t, path_timeout=120, enumerated=True,
                  smoke=dict(k1=0, k2=1, l1=3, l2=5, w=1, pos=True),
-                 extra_smokes=[dict(k1=k, k2=(k + 5) % 12, l1=k % 15, l2=(k + 7) % 15, w=k % 6, pos=bool(k % 2)) for k in range(12)]),
+                 extra_smokes=[dict(k1=k, k2=(k + 5) % 12, l1=k % 17, l2=(k + 7) % 17, w=k % 6, pos=bool(k % 2)) for k in range(12)] + [dict(k1=2, k2=3, l1=15, l2=15, w=0, pos=False), dict(k1=2, k2=3, l1=16, l2=15, w=1, pos=True)]),
       Obligation('c18_directives', c18_directives, dcubes, timeout=t, path_timeout=120, enumerated=True,
                  smoke=dict(n=4, d0=0, d1=3, d2=6, d3=3, split=5, reads=2),
                  extra_smokes=[dict(n=3, d0=2, d1=7, d2=5, d3=0, split=0, reads=0), dict(n=2, d0=3, d1=0, d2=0, d3=0, split=0, reads=0),
